@@ -24,6 +24,7 @@
 
   Helper lemmas: `CachedProofs/Lemmas/Frame.lean` (`visible`, `OnlyRead`, `KeyCh`/`step_key`, `Written`/`ReachW`).
 -/
+import CachedProofs.LayerB.Theorems
 import CachedProofs.Lemmas.Frame
 import CachedProofs.Properties.C04
 import CachedProofs.Properties.C07
